@@ -188,15 +188,24 @@ let () =
         let render st (l, ss) =
           (* D is printed from the model COMPILED from the Rust source of fill_symbol (Gen/C11Src.v); where the hand-written
              model answers differently (never on the unchanged tree: c11_compiled_fill_symbol) both are shown *)
-          String.concat ";" (fmt_table st :: List.map (fun (((a, b), g), c) ->
+          String.concat ";" (fmt_table st :: List.map (fun ((((a, b), g), c), cs) ->
             let d = match c with
               | Ret o when o = a -> fmt_out a
               | Ret o -> fmt_out o ^ "!hand-written-model=" ^ fmt_out a
               | Panic t -> "panic" ^ zs t ^ "!hand-written-model=" ^ fmt_out a
               | OutOfFuel -> "fuel!hand-written-model=" ^ fmt_out a
               | Fail -> "fail!hand-written-model=" ^ fmt_out a in
-            "D" ^ d ^ "/S" ^ (match b with None -> "-" | Some (i, o) -> zs i ^ ":" ^ fmt_out o)
-            ^ "/G" ^ opt zs g) l @ [fmt_cache ss]) in
+            (* S likewise from the compiled fill_source_line_info (with the compiled Symbolizer::fill_symbol inside) *)
+            let fmt_s = function None -> "-" | Some (i, o) -> zs i ^ ":" ^ fmt_out o in
+            let s = match cs with
+              | Ret fr ->
+                  let b2 = (match fr.sf_module with None -> None | Some i -> Some (i, fr.sf_out)) in
+                  if b2 = b && (fr.sf_module <> None || fr.sf_out = empty_out) then fmt_s b
+                  else (match fr.sf_module with None -> "-[" ^ fmt_out fr.sf_out ^ "]" | Some _ -> fmt_s b2) ^ "!hand-written-model=" ^ fmt_s b
+              | Panic t -> "panic" ^ zs t ^ "!hand-written-model=" ^ fmt_s b
+              | OutOfFuel -> "fuel!hand-written-model=" ^ fmt_s b
+              | Fail -> "fail!hand-written-model=" ^ fmt_s b in
+            "D" ^ d ^ "/S" ^ s ^ "/G" ^ opt zs g) l @ [fmt_cache ss]) in
         let from st = match run_case_st st mbase msize extra qs with Ret l -> render st l | r -> fail r in
         (* the table is printed (and the queries are answered) from the table built with the function COMPILED from the
            Line::Function arm of finish_item (Driver.table_of_src); where the hand-written build_symtab gives another table
